@@ -2,6 +2,7 @@
 import ast
 
 from sa.index import AnalysisError, ClassInfo
+from sa.index import before as _before
 from sa import dispatch as D, model as M, grammar as G
 from sa.rules import units, unitflow
 
@@ -247,7 +248,7 @@ def check_decimal_of_number(ix, rep):
                 for st in ast.walk(fn):
                     if isinstance(st, ast.Assign) and len(st.targets) == 1 and isinstance(st.targets[0], ast.Name) and st.targets[0].id == a.id \
                             and isinstance(st.value, ast.Call) and isinstance(st.value.func, ast.Name) and st.value.func.id in ('str', 'repr') \
-                            and len(st.value.args) == 1 and isinstance(st.value.args[0], ast.Name) and st.value.args[0].id == a.id and st.lineno < c.lineno:
+                            and len(st.value.args) == 1 and isinstance(st.value.args[0], ast.Name) and st.value.args[0].id == a.id and _before(st, c):
                         conv = True
                 if conv:
                     rep.ok('R-EXACT', mod.rel, fn.name, slot, 'a number is turned into its decimal text before Decimal()', c.lineno)
